@@ -128,6 +128,14 @@ def native_check(seed=0, trees=60, depth=6):
             or not torch.allclose(shared.apply(st, smp2), ref_sh, rtol=1e-10, atol=1e-12) \
             or not torch.allclose((SigmaZ() * 3 + SigmaX()).apply(st, smp2), SigmaZ().apply(st, smp2) * 3 + SigmaX().apply(st, smp2), rtol=1e-10, atol=1e-12):
         fails.append((repr(tree), "evaluations after a failed evaluation (a leaf raised, the caller caught it) are not the arithmetic on the current leaves"))
+    # history: the batch of an earlier evaluation has been freed and another batch of the same shape sits where it was
+    Hm = 2 * SigmaX() - SigmaZ() + 1
+    first = torch.tensor(rng.integers(0, 2, size=(6, 3)), dtype=torch.double)
+    other = 1.0 - first
+    b2 = C.at_freed_address(lambda: first.clone(), lambda a: Hm.apply(st, a), lambda: other.clone())
+    n += 1
+    if b2 is not None and not torch.allclose(Hm.apply(st, b2), 2 * SigmaX().apply(st, other) - SigmaZ().apply(st, other) + 1, rtol=1e-10, atol=1e-12):
+        fails.append((repr(Hm), "a composite evaluated on a batch that sits at the address of a freed earlier batch is not the arithmetic on its leaves"))
     for bad in (lambda: SigmaX() * SigmaZ(), lambda: ProdObservable(2, 3)):
         try:
             bad()
